@@ -393,7 +393,7 @@ impl World {
         let sql = self.cfg.storage != StorageKind::Mem;
         let gstore = SimGroupStorage::new(self.cfg.storage, self.cfg.retention, faults.clone());
         let kpstore = SimKpStore::new(sql, faults.clone());
-        let pskstore = SimPskStore::new(faults.clone());
+        let pskstore = SimPskStore::new(faults.clone(), self.cfg.weight("psk_rotate") > 0);
         let identity = SimIdentity::default();
         if self.cfg.knob("banned").is_some() {
             // the application's identity policy is the same on every device: the last party's credential is refused
